@@ -103,6 +103,7 @@ def gen_plan(seed, tier):
     cfg["scripts"] = [_script(r, r.randint(0, 8), fatal_ok=r.chance(0.3))
                       for _ in range(cfg["ncon"])]
     cfg["down_handler_sends"] = Rng(mix(seed, "dhs")).chance(0.5)
+    cfg["dpid0"] = Rng(mix(seed, "dpid0")).chance(0.25)
     for i in range(r.randint(2, 10)):
       steps.append({"con": r.randrange(cfg["ncon"]),
                     # (4096 = the deferred sender's slice size: exact
@@ -526,7 +527,9 @@ def _drive_ctl(sim, plan, known, hit):
         return any(d["type"] == typ for d in p.rx)
       if not eng.block(lambda: saw(W.FEATURES_REQUEST), 20):
         raise S.SimAbort("harness", "no features request")
-      p.send(W.enc_features_reply(1, 0x50 + i, [PORT]))
+      # (datapath id 0 is a datapath id)
+      p.send(W.enc_features_reply(1, 0 if cfg.get("dpid0") and i == 0
+                                  else 0x50 + i, [PORT]))
       if not eng.block(lambda: saw(W.BARRIER_REQUEST), 20):
         raise S.SimAbort("harness", "no barrier request")
       bx = [d["xid"] for d in p.rx if d["type"] == W.BARRIER_REQUEST][-1]
